@@ -4,7 +4,7 @@ setup(chk, pid)                                 build
 run(chk, pid, tier, seed, out, ev, known)       campaign; returns the number of replay files run
 replay(chk, pid, path)                          re-run one case file, print the verdict
 """
-import os, sys, json, time, glob, random, hashlib, shutil, re, copy
+import os, sys, json, time, glob, random, hashlib, shutil, re, copy, fnmatch
 from concurrent.futures import ThreadPoolExecutor, as_completed
 
 from . import pbuild, pcase, poracle, pgen, pref
@@ -152,9 +152,17 @@ def confirm(ctx, pid, case, sig, times=3):
     return ok, detail
 
 
-def register(chk, pid, out, known, sig, path, detail):
+def known_entry(pid, known, sig):
+    """entry of known_findings.json for this signature; the signature of an entry may be a glob pattern"""
     for k in known.get('known', []):
-        if k.get('property') == pid and k.get('signature') == sig:
+        if k.get('property') == pid and (k.get('signature') == sig or fnmatch.fnmatchcase(sig, k.get('signature', ''))):
+            return k
+    return None
+
+
+def register(chk, pid, out, known, sig, path, detail):
+    for k in [known_entry(pid, known, sig)]:
+        if k is not None:
             line = 'KNOWN-FINDING: property=%s %s' % (pid, k.get('what', sig))
             if line not in out.known_hits:
                 out.known_hits.append(line)
@@ -193,7 +201,7 @@ def stage_replays(ctx, chk, pid, out, known, ev):
         if expect and expect not in sigs:
             out.notes.append('known finding witness no longer fails: ' + f)
         for s, d in j.viol:
-            if any(k.get('property') == pid and k.get('signature') == s for k in known.get('known', [])):
+            if known_entry(pid, known, s):
                 register(chk, pid, out, known, s, f, d)
                 continue
             ok, d2 = confirm(ctx, pid, case, s)
@@ -322,13 +330,17 @@ def run(chk, pid, tier, seed, out, ev, known):
     ev['distinct_nontrivial'] = len(nt_hashes)
 
     def is_known(sig):
-        return any(k.get('property') == pid and k.get('signature') == sig for k in known.get('known', []))
+        return known_entry(pid, known, sig) is not None
 
     def work(item):
         sig, (case, detail) = item
         if is_known(sig):
             # a recorded finding met again by chance: no shrinking, no confirmation needed
             return sig, case, detail, case, 3, detail
+        ok1, _ = confirm(ctx, pid, case, sig, times=1)
+        if ok1 == 0:
+            # does not even reproduce once: no point in shrinking (load or scheduling dependent)
+            return sig, case, detail, case, 0, detail
         log('[%s] candidate %s: shrinking' % (pid, sig))
         small, nruns = shrink(ctx, pid, case, sig)
         ok, d2 = confirm(ctx, pid, small, sig)
